@@ -55,9 +55,15 @@ FragDefMovie ==
                       durs |-> Some(<<<<2>>, <<3>>>>), sizes |-> <<2, 1>>, cts |-> None, trunV |-> 0 ] >>,
                  << [ track |-> 1, base |-> "moof", tfhdDur |-> Some(<<4>>), tfdt |-> <<20>>, tfdtV |-> 0,
                       durs |-> None, sizes |-> <<3, 3>>, cts |-> None, trunV |-> 0, defSize |-> Some(3) ] >> >> ]
+\* "fragboth": the runs are addressed from an explicit base (the start of the media data box) while the
+\* default-base-is-moof flag is set as well (which is then ignored, 8.8.7.1); layout operations move
+\* the media data and its moof by different amounts
+FragBothMovie ==
+  [FragMovie EXCEPT !.frags = << << [FragMovie.frags[1][1] EXCEPT !.base = "both"] >>, << [FragMovie.frags[2][1] EXCEPT !.base = "both"] >> >>]
 \* "fragmf": the same fragmented movie with the media data of every fragment BEFORE its moof
 TheFragMovie == CASE Base \in {"fragdef", "fragdefsplit"} -> FragDefMovie
                   [] Base = "fragmf" -> [mdatFirst |-> TRUE] @@ FragMovie
+                  [] Base = "fragboth" -> FragBothMovie
                   [] OTHER -> FragMovie
 
 \* ---- where operations apply -----------------------------------------------------------
@@ -92,7 +98,7 @@ OpsAt(root, p) ==
      \cup (IF "spare" \in OpKinds /\ ~top /\ n.leaf /\ n.t \in SpareTypes /\ n.spare = <<>>
            THEN {[op |-> "spare", path |-> p, len |-> 3]} ELSE {})
 
-IsFrag == Base \in {"frag", "fragdef", "fragmf", "fragemsg", "fragsplit", "fragdefsplit"}
+IsFrag == Base \in {"frag", "fragdef", "fragmf", "fragemsg", "fragsplit", "fragdefsplit", "fragboth"}
 \* "fragsplit": the fragments as a media segment of their own (opened against the initialization
 \* segment), starting with a segment type box as DASH segments do
 Delivery == IF Base \in {"fragsplit", "fragdefsplit"} THEN "split" ELSE "one"
